@@ -756,6 +756,77 @@ func checkNoInPlaceMutationOfRows(c *Ctx) {
 			}
 		}
 	}
+	// containers (maps, slices) that belong to a handed-out row: updating, deleting from, overwriting an
+	// element of, or sorting them in place changes the stored row just the same
+	for _, f := range p.SrcFuncs("agent/consul") {
+		for _, b := range f.Blocks {
+			for _, in := range b.Instrs {
+				var container ssa.Value
+				what := ""
+				switch x := in.(type) {
+				case *ssa.MapUpdate:
+					container, what = x.Map, "map update"
+				case *ssa.Call:
+					if bi, ok := x.Call.Value.(*ssa.Builtin); ok && bi.Name() == "delete" {
+						container, what = x.Call.Args[0], "delete from map"
+					} else if cn := core.MethodNameOf(&x.Call); core.CalleePkgPath(&x.Call) == "sort" && !strings.Contains(cn, "Sorted") && !strings.HasPrefix(cn, "Search") && len(x.Call.Args) > 0 {
+						container, what = x.Call.Args[0], "in-place sort"
+						if mi, ok := container.(*ssa.MakeInterface); ok {
+							container = mi.X
+						}
+						if ct, ok := container.(*ssa.ChangeType); ok {
+							container = ct.X
+						}
+					}
+				case *ssa.Store:
+					if ia, ok := x.Addr.(*ssa.IndexAddr); ok {
+						if _, isSlice := ia.X.Type().Underlying().(*types.Slice); isSlice {
+							container, what = ia.X, "slice element store"
+						}
+					}
+				}
+				if container == nil {
+					continue
+				}
+				// the container is a field of a row pointer
+				ld, ok := container.(*ssa.UnOp)
+				if !ok || ld.Op != token.MUL {
+					continue
+				}
+				fa, ok := ld.X.(*ssa.FieldAddr)
+				if !ok {
+					continue
+				}
+				pt, ok := fa.X.Type().Underlying().(*types.Pointer)
+				if !ok {
+					continue
+				}
+				nt := core.NamedOf(pt.Elem())
+				if nt == nil {
+					continue
+				}
+				fromStore := ""
+				for _, leaf := range core.Leaves(fa.X, core.SliceOpts{}) {
+					call, ok := leaf.(*ssa.Call)
+					if !ok {
+						continue
+					}
+					g := call.Call.StaticCallee()
+					if g == nil || g.Signature.Recv() == nil || !strings.HasSuffix(core.FuncPkgPath(g), "/agent/consul/state") {
+						continue
+					}
+					if rawRowTypes(p, g, map[*ssa.Function]bool{})[nt.Obj().Name()] {
+						fromStore = g.Name()
+					}
+				}
+				if fromStore == "" {
+					continue
+				}
+				n++
+				r.Violate("C12.6", core.FuncName(f)+"/"+nt.Obj().Name()+"."+core.FieldObj(fa).Name()+"/"+strings.ReplaceAll(what, " ", "-"), p.Pos(in.Pos()), fmt.Sprintf("%s on field %s of the %s handed out by state.%s: that container belongs to the row held in the state store, so the row changes without a Raft apply, on this server only", what, core.FieldObj(fa).Name(), nt.Obj().Name(), fromStore))
+			}
+		}
+	}
 	// the readers the CA manager relies on are recognised as handing out stored rows (positive instance: the rule can fire)
 	sp := p.Pkg("agent/consul/state")
 	for _, rd := range []struct{ fn, typ string }{{"(*Store).CARoots", "CARoot"}, {"(*Store).CARootActive", "CARoot"}, {"(*Store).CAConfig", "CAConfiguration"}} {
